@@ -23,8 +23,8 @@ import vlib
 THEOREMS = [
     "type_soundness", "typeOfList_length", "insert_value_type", "insert_row_types",
     "insert_int_lossless_or_fails", "insert_lossless_unsound", "insert_decimal_truncates",
-    "not_null_enforced_unsound", "null_becomes_default_unsound", "no_silent_replacement_partial",
-    "mem_reads_back_exactly", "insert_agrees_with_spec_partial",
+    "not_null_enforced", "no_silent_replacement", "castRow_respects", "not_null_regression",
+    "insert_agrees_with_spec_partial", "castCol_ok", "castI_null_inv",
 ]
 
 # type-changing rewrite rules: the optimised plan (and the result) has another column type than
